@@ -44,6 +44,15 @@ def main():
         if rc != 0:
             res["error"] = "worktree: " + out
             return res
+        # a seed written against an evolved tree names its base patch (relative to /verif) in the file `base`
+        basef = os.path.join(seed, "base")
+        if os.path.exists(basef):
+            bp = os.path.join(VERIF, open(basef).read().strip())
+            rc, out = sh(f"git apply {bp}", cwd=wt)
+            res["base_patch"] = os.path.relpath(bp, VERIF)
+            if rc != 0:
+                res["error"] = "base patch: " + out[-500:]
+                return res
         demo = os.path.join(seed, "demo_test.go")
         first = open(demo).readline()
         m = re.match(r"//\s*place in:\s*(\S+)", first)
@@ -60,8 +69,7 @@ def main():
         if rc != 0:
             res["patch_output"] = out[-2000:]
             return res
-        rc, out = sh("git status --short", cwd=wt)
-        res["touched"] = [l[3:] for l in out.splitlines()]
+        res["touched"] = sorted({l[6:].strip() for l in open(os.path.join(seed, "patch.diff")) if l.startswith("+++ b/")})
         res["touches_tests"] = any(t.endswith("_test.go") or "testdata" in t for t in res["touched"])
         rc, out = sh("go build ./... && go test -vet=off -count=1 ./...", cwd=wt)
         res["suite_passes_with_patch"] = rc == 0
